@@ -462,6 +462,30 @@ var countSpecs = []countSpec{
 	{"(*par2.Decoder).ShardCounts", "UnusableParityShardCount", token.EQL, ".parityShards[*]"},
 }
 
+// incPathMap: for an increment found inside a counting helper, the mapping from the helper's
+// access paths to the caller's.
+var incPathMap = map[*ssa.BinOp]func(accessPath) accessPath{}
+
+// helperCount: v is result #k of a call of a module function with a single value returned in that
+// position; returns that value and the parameter-to-argument path mapping.
+func helperCount(v ssa.Value) (ssa.Value, func(accessPath) accessPath, bool) {
+	switch v.(type) {
+	case *ssa.Extract, *ssa.Call:
+	default:
+		return nil, nil, false
+	}
+	if c, ok := v.(*ssa.Call); ok {
+		if _, isB := c.Call.Value.(*ssa.Builtin); isB {
+			return nil, nil, false
+		}
+	}
+	hv, mp := throughCountingHelper(nil, v)
+	if hv == v {
+		return nil, nil, false
+	}
+	return hv, mp, true
+}
+
 // incrementsOf collects the "+1" operations in the phi web feeding v.
 func incrementsOf(v ssa.Value) (incs []*ssa.BinOp, other []ssa.Value) {
 	seen := map[ssa.Value]bool{}
@@ -482,6 +506,26 @@ func incrementsOf(v ssa.Value) (incs []*ssa.BinOp, other []ssa.Value) {
 					incs = append(incs, x)
 					walk(x.X)
 					return
+				}
+				// total += helper(...): the helper's own count, with its parameters mapped to the arguments
+				for _, pr := range [][2]ssa.Value{{x.X, x.Y}, {x.Y, x.X}} {
+					if hv, mp, ok := helperCount(pr[1]); ok {
+						hincs, hother := incrementsOf(hv)
+						if len(hother) == 0 && len(hincs) > 0 {
+							for _, hi := range hincs {
+								outer := incPathMap[hi]
+								mp2 := mp
+								if outer != nil {
+									o := outer
+									mp2 = func(p accessPath) accessPath { return mp(o(p)) }
+								}
+								incPathMap[hi] = mp2
+							}
+							incs = append(incs, hincs...)
+							walk(pr[0])
+							return
+						}
+					}
 				}
 			}
 			other = append(other, v)
@@ -556,6 +600,23 @@ func ruleDECIDECounts(w *World, r *Report, pkgs map[string]bool) {
 		}
 		n++
 		val, mapPath := throughCountingHelper(w, val)
+		wantOp := cs.op
+		// `unusable := len(d.fileData) - usable`: the complement within the very slice the other counter ranges over
+		if sb, ok := val.(*ssa.BinOp); ok && sb.Op == token.SUB {
+			if lc := isBuiltinCall(stripAllConv(sb.X), "len"); lc != nil {
+				lp := mapPath(deepPath(lc.Call.Args[0]))
+				if isReceiver(fn, lp.Root) && lp.Path+"[*]" == cs.suffix {
+					val = sb.Y
+					wantOp = negate(cs.op)
+					v2, mp2 := throughCountingHelper(w, val)
+					if v2 != val {
+						val = v2
+						outer := mapPath
+						mapPath = func(p accessPath) accessPath { return outer(mp2(p)) }
+					}
+				}
+			}
+		}
 		incs, other := incrementsOf(val)
 		if len(other) > 0 {
 			r.bad("DECIDE", key, w.pos(fn.Pos()), fmt.Sprintf("%s is not a pure counter (0 plus increments): it also depends on %s", cs.field, other[0].String()))
@@ -576,10 +637,14 @@ func ruleDECIDECounts(w *World, r *Report, pkgs map[string]bool) {
 			if isNilConst(el) {
 				el = c.Y
 			}
-			p := mapPath(deepPath(el))
+			p := deepPath(el)
+			if mp := incPathMap[inc]; mp != nil {
+				p = mp(p)
+			}
+			p = mapPath(p)
 			if isReceiver(fn, p.Root) && p.Path == cs.suffix {
 				desc = fmt.Sprintf("d%s %s nil", p.Path, c.Op)
-				if c.Op == cs.op {
+				if c.Op == wantOp {
 					found = true
 				}
 			}
